@@ -82,6 +82,12 @@ def check(run):
     for k in range(8 if quick else 60):
         n = 1 + k % 5
         one_case(run, gen(rng, n, 3, 0.05, 50.0, dependent=(k % 3 == 0), spread=[0.0, 0.5, 3.0, 6.0][k % 4]))
+    for k in range(2 if quick else 6):
+        # s/p shells on three centres in general position: the pair matrix needs every recursion axis to be right
+        cs = []
+        specs = [rand_shell(rng, [1, 1, 0][(i + k) % 3], cs, nprim=1, nseg=1, sph=False, exp_lo=0.3, exp_hi=3.0) for i in range(3)]
+        specs = [s_.copy(center=[core.snap(rng.uniform(-1.5, 1.5), 10) for _ in range(3)]) for s_ in specs]
+        one_case(run, specs, eri=True)
     for k in range(2 if quick else 10):
         n = 1 + k % (2 if quick else 3)
         one_case(run, gen(rng, n, 1 if quick else 2, 0.1, 10.0, dependent=(k % 2 == 0 and not quick), spread=[0.0, 2.0, 4.0][k % 3]), eri=True)
